@@ -287,5 +287,10 @@ func (c *Collector) evictStale() {
 			keys = append(keys, key)
 		}
 	}
+	// only the counters which were not updated in the current minute are halved,
+	// that could break the descending order.
+	sort.SliceStable(keys, func(i, j int) bool {
+		return keys[i].Counter.Value() > keys[j].Counter.Value()
+	})
 	c.keys = keys
 }
